@@ -381,11 +381,11 @@ class Interp:
         return results
 
     # ---------------------------------------------------------------- calls
-    def call_function(self, mod, func, args, kwargs):
+    def call_function(self, mod, func, args, kwargs, closure=None):
         self.depth += 1
         if self.depth > self.max_depth:
             raise AnalysisError("absint: call depth exceeded")
-        env = {}
+        env = dict(closure) if closure else {}
         a = func.args
         params = [p.arg for p in a.posonlyargs + a.args]
         defaults = a.defaults
@@ -616,6 +616,9 @@ class Interp:
             raise _Break()
         elif isinstance(st, ast.Continue):
             raise _Continue()
+        elif isinstance(st, ast.FunctionDef) and not st.decorator_list:
+            # a nested helper: called with the enclosing scope as it is at the time of the call (read-only closure)
+            env[st.name] = ("localfunc", st, env, mod)
         elif isinstance(st, (ast.FunctionDef, ast.ClassDef)):
             env[st.name] = Unknown(f"<local def {st.name}>")
         elif isinstance(st, ast.ImportFrom):
@@ -1040,6 +1043,9 @@ class Interp:
                     r = obj.items[idx]
                 except IndexError:
                     raise _Raise(AObj("IndexError"))
+                except TypeError:
+                    # a slice with a symbolic bound: the selection is not known
+                    return Unknown(f"{obj.name}[{_text(idx)}]")
                 return AList(r) if isinstance(idx, slice) else r
             return Unknown(f"{obj.name}[{_text(idx)}]")
         if isinstance(obj, dict) and isinstance(idx, (AObj, EnumMember)):
@@ -1145,6 +1151,8 @@ class Interp:
             return self.builtin(f[1], args, kwargs, e, mod)
         if isinstance(f, tuple) and f and f[0] == "method":
             return self.method(f[1], f[2], args, kwargs, e, mod)
+        if isinstance(f, tuple) and f and f[0] == "localfunc":
+            return self.call_function(f[3], f[1], args, kwargs, closure=f[2])
         if isinstance(f, tuple) and f and f[0] == "extfunc":
             if f[1] in self.externs:
                 return self.externs[f[1]](self, args, kwargs, e)
@@ -1389,7 +1397,7 @@ def _is_num(v):
 
 
 def _is_conc(v):
-    return isinstance(v, EnumMember) or v is None or isinstance(v, (int, float, str, bytes, bool)) or (isinstance(v, tuple) and all(_is_conc(x) for x in v) and (not v or v[0] not in ("func", "class", "module", "builtin", "method", "extfunc", "extmodule")))
+    return isinstance(v, EnumMember) or v is None or isinstance(v, (int, float, str, bytes, bool)) or (isinstance(v, tuple) and all(_is_conc(x) for x in v) and (not v or v[0] not in ("func", "class", "module", "builtin", "method", "extfunc", "extmodule", "localfunc")))
 
 
 def _text(v):
